@@ -2,11 +2,11 @@
    One theorem per codec gmsm owns, for ALL values; models in Ser/SerModel.v (function by function),
    lemmas in Ser/SerBytesProofs.v and Ser/SerProofs.v.
    Modelled by their contracts, NOT verified: PEM armour, encoding/asn1's struct handling (the DER pieces used
-   here - INTEGER >= 0, OCTET STRING, definite lengths - are modelled concretely in Ser/SerBytes.v and compared
-   with Go byte for byte by the differential run), encoding/hex (concrete model, same), math/big Bytes/SetBytes,
+   here - INTEGER, OCTET STRING, definite lengths - are the model coq/SM2/DER.v shared with C01/C02, through the
+   N-typed interface Ser/SerDER.v, and compared with Go byte for byte by the differential run), encoding/hex (concrete model, same), math/big Bytes/SetBytes,
    elliptic.Marshal/Unmarshal, PBKDF2 and AES-CBC (abstract with D after E = id), curve.ScalarBaseMult. *)
 From Coq Require Import List NArith ZArith Znumtheory Arith Bool Lia.
-From GmsmVerif Require Import Lib.Outcome Ser.SerBytes Ser.SerBytesProofs Ser.SerModel Ser.SerSpec Ser.SerProofs.
+From GmsmVerif Require Import Lib.Outcome SM2.DER Ser.SerBytes Ser.SerBytesProofs Ser.SerDER Ser.SerModel Ser.SerSpec Ser.SerProofs.
 Import ListNotations.
 Open Scope N_scope.
 
@@ -35,11 +35,11 @@ Example hex_pub_short_coordinates :
 Proof. vm_compute. auto. Qed.
 
 (* ---- compressed points ---------------------------------------------------------------------------------------- *)
-(* for every curve y^2 = x^3 + ax + b over a prime field with p = 3 mod 4 (premises: primality, Fermat's little
-   theorem for p - explicit hypotheses, instantiated for the toy field below; for the SM2 prime they are the
-   usual premises of this development, cf. DESIGN section 8): Decompress(Compress P) = P for every curve point *)
+(* for every curve y^2 = x^3 + ax + b over a prime field with p = 3 mod 4 (big.Int.ModSqrt is then a^((p+1)/4)):
+   Decompress(Compress P) = P for every curve point.  The only mathematical premise is the primality of p (for the SM2
+   prime the usual premise of this development, DESIGN section 8); Fermat's little theorem is proved (Ser/Fermat.v). *)
 Theorem compress_decompress : forall p a b : N,
-  prime (Z.of_N p) -> p mod 4 = 3 -> (forall y, 0 < y < p -> y ^ (p - 1) mod p = 1) -> p <= 2 ^ 256 ->
+  prime (Z.of_N p) -> p mod 4 = 3 -> p <= 2 ^ 256 ->
   forall x y, on_curve p a b x y = true -> Decompress p a b (Compress x y) = Some (x, y).
 Proof. exact compress_decompress_curve. Qed.
 Print Assumptions compress_decompress.
@@ -52,7 +52,8 @@ Theorem decompress_rejects_invalid : forall p a b c,
 Proof. exact decompress_rejects. Qed.
 Print Assumptions decompress_rejects_invalid.
 
-(* non-vacuity: the premises hold for p = 7 (proved), and the SM2 base point round-trips by computation *)
+(* non-vacuity: the premises hold for p = 7 (proved), and the SM2 base point round-trips by computation; for the SM2
+   prime itself the theorem leaves exactly one premise *)
 Example prime_7 : prime 7.
 Proof.
   apply prime_intro; [lia|]. intros n Hn.
@@ -61,13 +62,13 @@ Proof.
 Qed.
 
 Example compress_decompress_F7 : forall x y, on_curve 7 1 1 x y = true -> Decompress 7 1 1 (Compress x y) = Some (x, y).
-Proof.
-  apply compress_decompress; [exact prime_7|reflexivity| |vm_compute; discriminate].
-  intros y H. assert (y = 1 \/ y = 2 \/ y = 3 \/ y = 4 \/ y = 5 \/ y = 6) as K by lia.
-  destruct K as [->|[->|[->|[->|[->| ->]]]]]; reflexivity.
-Qed.
+Proof. apply compress_decompress; [exact prime_7|reflexivity|vm_compute; discriminate]. Qed.
 Example F7_has_points : on_curve 7 1 1 0 1 = true /\ on_curve 7 1 1 2 5 = true /\ Decompress 7 1 1 (Compress 2 5) = Some (2, 5).
 Proof. vm_compute. auto. Qed.
+
+Example compress_decompress_sm2 : prime (Z.of_N sm2P) ->
+  forall x y, on_curve sm2P sm2A sm2B x y = true -> Decompress_sm2 (Compress x y) = Some (x, y).
+Proof. intros Hp. apply compress_decompress; [exact Hp|reflexivity|vm_compute; discriminate]. Qed.
 
 Definition sm2Gx : N := 0x32C4AE2C1F1981195F9904466A39C9948FE30BBFF2660BE1715A4589334C74C7.
 Definition sm2Gy : N := 0xBC3736A2F4F6779C59BDCEE36B692153D0A9877CC62A474002DF32E52139F0A0.
@@ -79,10 +80,20 @@ Example compress_decompress_sm2_G :
 Proof. vm_compute. auto 6. Qed.
 
 (* ---- ASN.1 signature ---------------------------------------------------------------------------------------------- *)
-(* all r, s >= 0: zero, short values, values with the top bit set (a 00 is inserted), any length *)
-Theorem asn1_sig_roundtrip : forall r s, SignDataToSignDigit (SignDigitToSignData r s) = Ok (r, s).
+(* all r, s >= 0 whose magnitude has fewer than 2^21 bytes (the DER reader, like Go's, limits lengths): zero, short
+   values, values with the top bit set (a 00 is inserted), long-form lengths *)
+Theorem asn1_sig_roundtrip : forall r s,
+  (Z.of_nat (length (Bytes r)) < 2 ^ 21)%Z -> (Z.of_nat (length (Bytes s)) < 2 ^ 21)%Z ->
+  SignDataToSignDigit (SignDigitToSignData r s) = Ok (r, s).
 Proof. exact sig_roundtrip. Qed.
 Print Assumptions asn1_sig_roundtrip.
+
+(* one DER model: the helper writes exactly what the model of PrivateKey.Sign writes (SM2/DER.v sig_encode), and the
+   byte conversions of this family are those of SM2/SM2Bytes.v *)
+Example asn1_sig_same_der : forall r s, SignDigitToSignData r s = DER.sig_encode (Z.of_N r) (Z.of_N s).
+Proof. reflexivity. Qed.
+Example ser_bytes_same : (forall n, Bytes n = SM2Bytes.be_bytes (Z.of_N n)) /\ (forall l, Z.of_N (of_be l) = SM2Bytes.os2ip l).
+Proof. split; [exact Bytes_be_bytes|exact of_be_os2ip]. Qed.
 
 Example asn1_sig_bytes : SignDigitToSignData 0x80 0x7f = [48; 7; 2; 2; 0; 128; 2; 1; 127]
   /\ SignDigitToSignData 0 1 = [48; 6; 2; 1; 0; 2; 1; 1].
@@ -90,8 +101,9 @@ Proof. vm_compute. auto. Qed.
 
 (* ---- ASN.1 ciphertext --------------------------------------------------------------------------------------------- *)
 (* every C1||C3||C2 ciphertext 04||x||y||hash||c (x, y, hash 32 bytes; c any length, may be empty): the
-   coordinates - including ones with leading zero bytes - come back exactly as they were *)
-Theorem asn1_cipher_roundtrip : forall data, bytes_ok data -> (97 <= length data)%nat -> hd 0 data = 4 ->
+   coordinates - including ones with leading zero bytes - come back exactly as they were (ciphertexts below 4 MiB) *)
+Theorem asn1_cipher_roundtrip : forall data, bytes_ok data -> (97 <= length data)%nat ->
+  (Z.of_nat (length data) < 2 ^ 22)%Z -> hd 0 data = 4 ->
   exists der, CipherMarshal data = Ok der /\ CipherUnmarshal der = Ok data.
 Proof. exact cipher_roundtrip. Qed.
 Print Assumptions asn1_cipher_roundtrip.
@@ -177,6 +189,30 @@ Theorem loader_accepts_iff_match_other_algorithms : forall c k,
   (X509KeyPair c k = true <-> key_matches c k) /\ (GMX509KeyPairsSingle c k = true <-> key_matches c k).
 Proof. intros c k H. split; [apply X509KeyPair_iff|apply GMX509KeyPairsSingle_iff]; exact H. Qed.
 Print Assumptions loader_accepts_iff_match_other_algorithms.
+
+(* PEM level (getCert / getKey / parsePrivateKey): the certificate that is matched is the FIRST "CERTIFICATE" block
+   (later ones are the chain), the key is the FIRST block whose type is "PRIVATE KEY" or ends in " PRIVATE KEY" - later
+   key blocks are never looked at - and its bytes must be PKCS#1 RSA, PKCS#8 RSA/ECDSA or PKCS#8 SM2: the label does
+   not matter ("EC PRIVATE KEY" around a PKCS#8 SM2 key is read), a SEC 1 ECPrivateKey or an encrypted key is never read
+   (no parser / no password: a format limit of the loaders, documented).  Accepts <=> such a pair exists and matches. *)
+Theorem loader_pem_selection :
+  (forall cf kf ecf ekf, GMX509KeyPairs_pem cf kf ecf ekf = true <-> pem_sm2_pair cf kf /\ pem_sm2_pair ecf ekf)
+  /\ (forall cf kf x y, first_cert cf = Some (CEc O x y) ->
+        (X509KeyPair_pem cf kf = true <-> exists kc, first_key kf = Some kc /\ readable_key kc = Some (KSm2 x y))
+        /\ (GMX509KeyPairsSingle_pem cf kf = true <-> exists kc, first_key kf = Some kc /\ readable_key kc = Some (KSm2 x y))).
+Proof. split; [exact GMX509KeyPairs_pem_iff|exact sm2_leaf_pem]. Qed.
+Print Assumptions loader_pem_selection.
+
+Example loader_pem_examples :
+  let c := (LCert, PCert (CEc 0 1 2)) in let chain := (LCert, PCert (CEc 0 8 9)) in
+  X509KeyPair_pem [c; chain] [(LPrivKey, PPkcs8Sm2 1 2)] = true
+  /\ X509KeyPair_pem [chain; c] [(LPrivKey, PPkcs8Sm2 1 2)] = false                          (* the leaf must come first *)
+  /\ X509KeyPair_pem [(LOtherLabel, PJunk); c] [(LOtherLabel, PJunk); (LSuffixPrivKey, PPkcs8Sm2 1 2)] = true   (* "EC PARAMETERS" skipped, label irrelevant *)
+  /\ X509KeyPair_pem [c] [(LSuffixPrivKey, PSec1); (LPrivKey, PPkcs8Sm2 1 2)] = false          (* first key block decides *)
+  /\ X509KeyPair_pem [c] [(LSuffixPrivKey, PEncrypted)] = false
+  /\ X509KeyPair_pem [c] [(LCert, PCert (CEc 0 1 2))] = false /\ X509KeyPair_pem [(LPrivKey, PPkcs8Sm2 1 2)] [(LPrivKey, PPkcs8Sm2 1 2)] = false
+  /\ GMX509KeyPairs_pem [c] [(LPrivKey, PPkcs8Sm2 1 2)] [chain] [(LSuffixPrivKey, PPkcs8Sm2 8 9)] = true.
+Proof. vm_compute. auto 10. Qed.
 
 Example loader_examples :
   GMX509KeyPairs (CEc 0 1 2) (KSm2 1 2) (CEc 0 3 4) (KSm2 3 4) = true
